@@ -131,6 +131,10 @@ func pathWithin(path, dir string) bool {
 	if path == dir {
 		return true
 	}
+	if dir == "." {
+		// The workspace root contains every path that does not leave the workspace
+		return !filepath.IsAbs(path) && path != ".." && !strings.HasPrefix(path, ".."+string(filepath.Separator))
+	}
 
 	dirWithSeparator := dir + string(filepath.Separator)
 	return strings.HasPrefix(path, dirWithSeparator)
